@@ -7,7 +7,7 @@ from .._is_ellipsis import TypeOrEllipsis, is_ellipsis
 from .._props import Props
 from .._schema_visitor import SchemaVisitor
 from .._schema_visitor import SchemaVisitorReturnType as ReturnType
-from ..errors import DeclarationError, make_already_declared_error, make_invalid_type_error
+from ..errors import DeclarationError, _repr, make_already_declared_error, make_invalid_type_error
 from ._optional import optional
 from ._schema import GenericSchema, Schema
 
@@ -43,10 +43,10 @@ class DictSchema(Schema[DictProps]):
         for key, val in keys.items():
             if is_ellipsis(key) or is_ellipsis(val):
                 if not is_ellipsis(key):
-                    message = f"Inappropriate type of key {key!r} ({type(key)!r})"
+                    message = f"Inappropriate type of key {_repr(key)} ({type(key)!r})"
                     raise DeclarationError(message)
                 if not is_ellipsis(val):
-                    message = f"Inappropriate type of value {val!r} ({type(val)!r})"
+                    message = f"Inappropriate type of value {_repr(val)} ({type(val)!r})"
                     raise DeclarationError(message)
             else:
                 if not isinstance(val, Schema):
